@@ -313,6 +313,13 @@ def run(chk):
         texts.append(("number", f"let a = {t}{rng.choice([';', '', 'x;', '.5;', '_;', 'e;'])}"))
     for t in rng.sample(base, 60 if quick else len(base)):
         texts.append(("shipped", t))
+    # corpus: the inputs of the repaired defects (exponential parse, literal handlers, interner)
+    for t in ["let v = " + "(" * 64 + "1;", "let v = " + "(" * 64 + "1" + ",)" * 64 + ";", "let v = " + 'f"{' * 40 + "1" + '}"' * 40 + ";",
+              "let v: " + "(" * 64 + "int" + ")" * 64 + " = 1;", "let v: " + "Sequence<" * 64 + "int" + ">" * 64 + " = [];", "let v = " + "g<" * 64 + "1;",
+              "let v = " + "(a: int ?= " * 40 + "1" + ")->{a}" * 40 + ";", "fn f(a: " + "Optional<" * 64 + "int" + ">" * 60 + ")->int{1}",
+              "let a = 0x" + "f" * 33 + ";", "let a = 0x_;", "let a = 1e999;", "let item99999999999999999999999 = 1;", "let item1a=1; let item1b=2; let c=item1a;",
+              "let s = '\\u{+41}';", "let s = 'it\\'s';", "fn f(a: int,)->int{a}"]:
+        texts.append(("corpus", t))
     resps = run_harness([{"op": "lex", "f": "compile", "src": t} for _, t in texts], per_req_timeout=10.0)
     for (kind, t), r in zip(texts, resps):
         chk.evaluations += 1
